@@ -215,6 +215,9 @@ def run(ctx):
     dunit.eval_d_unit(u, results)
 
 
+REPLAY = ("case", monitor)      # harness/replay.py re-executes a recorded spec through this monitor
+
+
 def replay(ctx, data):
     import json
     print(json.dumps(data, indent=1)[:6000])
